@@ -102,7 +102,7 @@ def strategy(tier):
                 routes = ["setattr", "setitem", "ctor", "load_tree", "loads", "container"]
             elif kind == "item-leaf":
                 val = st.one_of(specs.values(t[4]), specs.junk())
-                routes = ["item-setattr", "append", "insert", "setitem-index", "assign-list", "load_tree", "loads", "extend"]
+                routes = ["item-setattr", "item-setattr", "item-setattr", "append", "insert", "setitem-index", "assign-list", "load_tree", "loads", "extend"]
             elif kind == "dict-entry":
                 vf = t[2].get("valuef")
                 val = st.one_of(specs.values(vf) if vf else specs.junk(), specs.junk())
@@ -116,10 +116,16 @@ def strategy(tier):
                 routes = ["setattr", "setitem", "load_tree", "loads"]
             return st.fixed_dictionaries({
                 "spec": st.just(spec), "target": st.just(i), "value": val, "route": st.sampled_from(routes), "fmt": st.sampled_from(trees.FORMATS),
-                "n_before": st.integers(0, 3), "index": st.integers(0, 3), "dkey": st.sampled_from(["a", "k1", "Key", "x.y", "", "1"]),
+                "n_before": st.integers(0, 3) if kind != "item-leaf" else st.integers(1, 4), "index": st.integers(0, 3), "dkey": st.sampled_from(["a", "k1", "Key", "x.y", "", "1"]),
                 "good": st.lists(specs.values(t[2]["item"]) if kind == "list-item" else st.none(), min_size=3, max_size=3),
+                "built_by": st.sampled_from(["assign", "load_tree"]),
+                "shift": st.lists(st.sampled_from(["del0", "pop", "insert0", "reverse", "append", "swap"]), min_size=0 if kind != "item-leaf" else 1, max_size=3),
             })
-        return st.integers(0, len(targets) - 1).flatmap(for_target)
+        # choose the target class first: plain leaves outnumber everything else by far
+        by_kind = {}
+        for i, t in enumerate(targets):
+            by_kind.setdefault(t[0], []).append(i)
+        return st.sampled_from(sorted(by_kind)).flatmap(lambda k: st.sampled_from(by_kind[k])).flatmap(for_target)
     from .c06 import _with_includes
     return worlds.schema_spec(tier, allow=("schema", "schema", "configtype", "schemalist", "virtual", "method", "featureflag")).flatmap(_with_includes).flatmap(pick)
 
@@ -202,7 +208,13 @@ def run_case(case, R):
                 if isinstance(value, dict):
                     # a map with one bad leaf somewhere below: the error must name that leaf
                     tree = specs.realize(ops.resolve_tree(node, case["value"], ctx, to_basic=False))
-                    bad = _first_bad(node, tree, ctx, path, includes_first=(route == "loads"))
+                    # a document load resolves include fields first - but only along a chain of plain nested schemas
+                    chain_ok, walk = True, spec
+                    for key in path:
+                        walk = next(c for c in walk["children"] if c["key"] == key)
+                        chain_ok = chain_ok and walk["kind"] == "schema"
+                    via_doc = route == "loads" and ops.is_plain(_nest(path, tree), fmt)  # else it falls back to load_tree
+                    bad = _first_bad(node, tree, ctx, path, includes_first=(via_doc and chain_ok))
                     if bad is None:
                         return
                     want, name = bad
@@ -292,7 +304,11 @@ def run_case(case, R):
                 n_before = case["n_before"]
                 ok_items = [{} for _ in range(n_before)]
                 try:
-                    ops.set_via(cfg, lpath, list(ok_items), "setattr")
+                    if case.get("built_by") == "load_tree":
+                        cfg.load_tree(_nest(lpath, list(ok_items)))  # the list came from a document / tree
+                        R.label("list-built-by-load")
+                    else:
+                        ops.set_via(cfg, lpath, list(ok_items), "setattr")
                     lst = worlds.get_path(cfg, lpath)
                 except Exception:
                     # items without their required fields cannot be placed: start from an empty list
@@ -308,6 +324,24 @@ def run_case(case, R):
                 bad_item = _nest(ipath, value)
                 R.label("route:inplace" if route in ("item-setattr", "append", "insert", "setitem-index", "extend") else "route:container" if route == "assign-list" else "route:x")
                 if route == "item-setattr":
+                    # the list may have been rearranged in place since its items were loaded
+                    for sh in case.get("shift", []):
+                        try:
+                            if sh == "del0" and len(lst) > 1:
+                                del lst[0]
+                            elif sh == "pop" and len(lst) > 1:
+                                lst.pop()
+                            elif sh == "insert0":
+                                lst.insert(0, {})
+                            elif sh == "append":
+                                lst.append({})
+                            elif sh == "reverse":
+                                lst.reverse()
+                            elif sh == "swap" and len(lst) > 1:
+                                lst[0], lst[-1] = lst[-1], lst[0]
+                            R.label("shifted-items")
+                        except Exception:
+                            pass
                     if not lst:
                         return
                     i = case["index"] % len(lst)
@@ -411,7 +445,7 @@ def _first_bad(node, tree, ctx, path, includes_first=False):
             if not isinstance(v, (list, tuple)):
                 return (".".join(path + (k,)), None)
             return None  # items of a list of configurations inside a map: not modelled by this helper
-        if c["kind"] in ("virtual", "method", "featureflag"):
+        if c["kind"] in ("virtual", "method"):
             continue
         verdict = ops.expected_after_load(c, v, ctx)  # a map is applied with load semantics (to_python, then validate)
         if verdict[0] == REJ:
